@@ -12,6 +12,9 @@ OUT=/verif/SEEDMATRIX.md
 miss=0
 for d in $DIRS; do
   id=$(basename $d); p=${id%%-*}
+  # the check that is expected to catch it: the first entry of caught_by_quick_checks (the targeted
+  # check, except for the few changes that only show under concurrency and are caught by C17)
+  q=$(jq -r '.caught_by_quick_checks[0] // empty' $d/meta.json 2>/dev/null); [ -n "$q" ] && p=$q
   if ! git -C /repo apply /verif/$d/patch.diff 2>/dev/null; then echo "$id: PATCH DOES NOT APPLY"; echo "| $id | $p | n/a | patch does not apply to the current tree |" >> $OUT.tmp; continue; fi
   out=$(./check.sh $p quick 2>&1); rc=$?
   git -C /repo checkout -- .
